@@ -7,7 +7,7 @@
 // start/end links written into the list are in range and point backwards / forwards correctly.
 //@assume quick-xml Reader model: read_event_into returns an arbitrary event or error and consumes at least one byte (and at least one per newline reported) of an input of fewer than usize::MAX bytes; the reader reaches Eof or an error after finitely many events (termination of from_reader's `loop` is by the input length: decreases on the unread byte budget)
 //@assume inner_events / all_events: the element's event_range lies within context.events (precondition: the range comes from from_reader's links via tagify_events and set_event_range; not proved as a global invariant of the element table)
-//@assume R-abstract: counting newlines of an event (iterator + closure) is event_lines(); the trailing-indent computation on the text (rsplit_once / trim_end_matches) is trailing_indent(); SvgElement::try_from(InputEvent) is opaque
+//@assume is_xml_blank (a six-line byte loop over the payload; `&BytesText` derefs to `[u8]`) is taken by its obvious meaning xml_blank(); R-abstract: counting newlines of an event (iterator + closure) is event_lines(); the trailing-indent computation on the text (rsplit_once / trim_end_matches) is trailing_indent(); SvgElement::try_from(InputEvent) is opaque
 use vstd::prelude::*;
 //@prelude fmt_macro
 verus! {
@@ -86,6 +86,12 @@ impl Tag {
 //@item src/events.rs :: impl Tag :: fn set_text
 //@end
 }
+/// white space as XML allows it between markup outside the root element: blank, tab, CR, LF
+pub open spec fn xml_blank(b: Seq<u8>) -> bool { forall|i: int| 0 <= i < b.len() ==> (#[trigger] b[i] == 32u8 || b[i] == 9u8 || b[i] == 13u8 || b[i] == 10u8) }
+/// R-abstract: the byte loop of is_xml_blank applied to the text event's payload (`&BytesText` derefs to `[u8]`)
+#[verifier::external_body]
+pub fn is_xml_blank(t: &BytesText) -> (r: bool) ensures r == xml_blank(t.raw()) { unimplemented!() }
+
 impl InputList {
 //@item src/events.rs :: impl InputList :: fn len
 //@ ensures
@@ -106,6 +112,8 @@ impl InputList {
 //@ replace[R-typeann] <<<let mut index = 0;>>> => <<<let mut index: usize = 0;>>>
 //@ before <<<loop {>>>
 //@ | let ghost g_total = reader.budget();
+//@ before <<<                    indent = trailing_indent(t)?;>>>
+//@ | assert(event_idx_stack@.len() > 0 || xml_blank(t.raw())); // character data is only accepted INSIDE an element: outside the root it would be written before / after the root element (the output would not be a document); a mis-tokenised DOCTYPE tail arrives here too @C02.reader.no_text_outside_elements
 //@ ensures
 //@ - r is Ok ==> links_ok(r->Ok_0.events@)     @@C01.reader.links_in_range
 //@ loop 1
